@@ -7,7 +7,7 @@ RULE = ("random schedules over 1 root gate, up to 6 clones, 3 queue links and 3 
         "changes; profile `fullq`: a clone that does not run process() collects 14-19 Follow* commands (its command queue holds 16), "
         "then Terminate / drop, then the clones catch up; profile `abandon`: mostly direct links giving up on connect() and "
         "connecting again while updates are published. A case is non-trivial when at least one update blocked mid-snapshot, a "
-        "clone replayed commands late, a connect was abandoned, or the root had to wait inside notify_clones (Z:blk / T:blk / "
+        "clone replayed commands late, a connect was abandoned, a connected link was dropped, or the root had to wait inside notify_clones (Z:blk / T:blk / "
         "c:blk), and at least two deliveries happened or a Terminate was delivered late; distinct = distinct case text")
 TRUSTED_BASE = [
     "Coq 8.16.1 kernel (coqc; coqchk in thorough); no native_compute",
@@ -17,9 +17,9 @@ TRUSTED_BASE = [
     "NOT modelled (exercised only): tokio scheduling, tokio::sync::mpsc internals (assumed: FIFO, bounded, fair hand-over of freed capacity, recv() = None when all senders are gone), Reconfigure",
 ]
 ASSUMPTIONS = [
-    "each FrimMap operation (insert/remove/guard) is atomic (property C18); each command handled by Gate::process() is one step plus one step per send of notify_clones (a send into a full clone command queue, capacity 16, waits); the ROOT's own command queue (also 16) is unbounded in the model and kept short by the engines",
+    "each FrimMap operation (insert/remove/guard) is atomic (property C18); each command handled by Gate::process() is one step plus one step per send of notify_clones (a send into a full clone command queue, capacity 16, waits); the ROOT's own command channel (also 16): the gate model's FIFO is the channel followed by the senders that wait for room (GateModel.bst / bstep, C08_bounded_gate_refines); ops H / R let it fill up",
     "tokio mpsc channels are FIFO, bounded, and close when all senders are dropped; the scheduler is arbitrary (theorems quantify over all action lists)",
-    "a connect()/query() future is dropped either while its Subscribe is still queued or after the gate put its answer into the oneshot (action AAbandon); a future dropped while the send of Subscribe itself waits for room in the root's command queue is not modelled (that queue is unbounded in the model); a dropped direct-update target is modelled per gate slot (action ARxDrop)",
+    "a connect()/query() future is dropped either while its Subscribe is still queued or after the gate put its answer into the oneshot (action AAbandon); a future dropped while the send of Subscribe itself waits for room in the root's command channel is a command that was never sent (the driver skips it; inside the model it would be a dead Subscribe taking its turn, C08_dead_subscribe_is_noop); a dropped direct-update target is modelled per gate slot (action ARxDrop)",
     "GateCommand::Reconfigure (gate take-over on config reload) is not modelled",
 ]
 
@@ -121,7 +121,71 @@ def gen_abandon(rng):
     return ";".join(ops)
 
 
+def gen_busy(rng):
+    """The unit that owns the gate is busy elsewhere (H): its process() is not polled while other components ask for a
+    connection and give up / connect / suspend - the 16 places of the root's command channel fill up, further senders wait;
+    connected links are DROPPED then (Drop for Link: the Unsubscribe waits for room) and their components link again at once;
+    the unit gets back to its gate (R); updates."""
+    cap = rng.weighted([(1, 30), (2, 40), (3, 30)])
+    ops = ["Q %d" % cap]
+    conn = set()
+    for l in rng_sample(rng, list(range(NL)), rng.range(1, 4)):
+        if rng.chance(70) or l % 2 == 1:
+            ops.append("c %d" % l)
+            conn.add(l)
+    if rng.chance(50):
+        ops.append("u 0")
+    ops.append("H")
+    fill = rng.weighted([(rng.range(0, 12), 20), (rng.range(13, 15), 15), (16, 35), (rng.range(17, 20), 30)])
+    free = [l for l in range(NL) if l not in conn] or [0]
+    for _ in range(fill):
+        k = rng.weighted([("a", 70), ("c", 12), ("s", 9), ("r", 4), ("u", 5)])
+        if k == "a":
+            ops.append("a %d" % rng.choice(free))
+        elif k == "c":
+            ops.append("c %d" % rng.choice(free))
+        elif k in ("s", "r") and conn:
+            ops.append("%s %d" % (k, rng.choice(sorted(conn))))
+        else:
+            ops.append("u 0")
+    for _ in range(rng.range(1, 3)):
+        if not conn:
+            break
+        l = rng.choice(sorted(conn))
+        ops.append("%s %d" % (rng.weighted([("o", 85), ("d", 15)]), l))
+        conn.discard(l)
+        if rng.chance(75):
+            ops.append("c %d" % l)      # the component links again at once, same target
+        if rng.chance(20):
+            ops.append("a %d" % rng.choice(free))
+        if rng.chance(15):
+            ops.append("u 0")
+    if rng.chance(92):
+        ops.append("R")
+    for _ in range(rng.range(1, 6)):
+        k = rng.weighted([("u", 50), ("q", 15), ("c", 10), ("o", 10), ("M", 5), ("d", 5), ("H", 5)])
+        if k in ("c", "o", "d"):
+            ops.append("%s %d" % (k, rng.below(NL)))
+        elif k == "q":
+            ops.append("q %d" % (2 * rng.below(NL // 2)))
+        elif k == "u":
+            ops.append("u 0")
+        else:
+            ops.append(k)
+    return ";".join(ops)
+
+
+def rng_sample(rng, items, n):
+    items = list(items)
+    out = []
+    while items and len(out) < n:
+        out.append(items.pop(rng.below(len(items))))
+    return out
+
+
 def gen_case(rng, profile):
+    if profile == "busy":
+        return gen_busy(rng)
     if profile == "fullq":
         return gen_fullq(rng)
     if profile == "abandon":
@@ -131,7 +195,7 @@ def gen_case(rng, profile):
     ops = ["Q %d" % cap]
     nclones = 0
     w = {"c": 16, "d": 8, "s": 5, "r": 4, "q": 14, "u": 26, "k": 5, "x": 3, "F": 7, "D": 5, "T": 1, "X": 1, "Z": 1, "t": 3, "M": 2,
-         "a": 3, "b": 3}
+         "a": 3, "b": 3, "o": 3}
     if profile == "churn":
         w.update({"c": 22, "d": 14, "F": 12, "k": 8, "u": 22})
     elif profile == "pressure":
@@ -151,13 +215,13 @@ def gen_case(rng, profile):
         k = rng.weighted(pairs)
         if k in ("T", "X", "Z") and profile != "term" and 3 * i < 2 * n:
             k = "u"   # keep the root alive for most of the schedule
-        if k in ("c", "d"):
+        if k in ("c", "d", "o"):
             for c in lag:
                 if lag[c] >= 12 and not rng.chance(8):
                     ops.append("D %d" % c)
                     lag[c] = 0
                 lag[c] += 1
-        if k in ("c", "d", "s", "r", "a", "b"):
+        if k in ("c", "d", "s", "r", "a", "b", "o"):
             ops.append("%s %d" % (k, rng.below(NL)))
         elif k == "t":
             ops.append("t %d" % (1 + 2 * rng.below(NL // 2)))
@@ -181,10 +245,10 @@ def gen_case(rng, profile):
 
 
 def gen(rng, tier):
-    n = 2880 if tier == "quick" else 48000
-    profiles = ["mixed", "churn", "pressure", "term", "fullq", "abandon"]
+    n = 3360 if tier == "quick" else 56000
+    profiles = ["mixed", "churn", "pressure", "term", "fullq", "abandon", "busy"]
     for i in range(n):
-        yield gen_case(rng, profiles[i % 6])
+        yield gen_case(rng, profiles[i % 7])
 
 
 def gen_metrics_case(rng):
@@ -278,7 +342,7 @@ def _deliveries(out):
 
 def nontrivial(case, out):
     late = "Z:blk" in out or "T:blk" in out or "c:blk" in out
-    gave_up = "a:ok" in out or "b:ok" in out or "a:cut" in out
+    gave_up = "a:ok" in out or "b:ok" in out or "a:cut" in out or "o:ok" in out
     return ("u:blk" in out or "F:ok" in out or "D:idle" in out or late or gave_up) and (_deliveries(out) >= 2 or late)
 
 
@@ -295,6 +359,29 @@ def classify(case, out):
                      ("b:ok", "connect-abandoned-after-the-answer"), ("a:cut", "connect-in-flight-cancelled"), ("F:term", "clone-sees-terminate"), ("D:term", "clone-sees-terminate")):
         if tag in toks[:n]:
             ks.append(key)
+    ops = [o.strip() for o in case.split(";")]
+    if ops and not ops[0].startswith("Q"):
+        ops = ["Q"] + ops if toks[:1] == ["Q"] else ops
+    if "H:ok" in toks[:n]:
+        ks.append("unit-busy-elsewhere")
+        h = toks.index("H:ok")
+        cmds = 0
+        for t in toks[h + 1:n]:
+            if t == "R:ok":
+                break
+            if t == "o:ok":
+                ks.append("link-dropped-with-a-full-command-channel" if cmds >= 16 else "link-dropped-while-the-unit-is-busy")
+            if t in ("a:ok", "c:blk", "s:ok", "r:ok", "d:ok", "o:ok"):
+                cmds += 1
+        if cmds >= 16:
+            ks.append("command-channel-full")
+    if "o:ok" in toks[:n]:
+        ks.append("link-dropped")
+        for i, t in enumerate(toks[:n]):
+            if t == "o:ok" and i < len(ops) and len(ops[i].split()) > 1 and any(
+                    o2 == "c " + ops[i].split()[1] and t2 in ("c:ok", "c:blk") for o2, t2 in zip(ops[i + 1:], toks[i + 1:n])):
+                ks.append("relinked-after-drop")
+                break
     d = _deliveries(out)
     ks.append("deliveries=0" if d == 0 else "deliveries<=10" if d <= 10 else "deliveries>10")
     if any(t.startswith("L") and "/" in t for t in toks[n:]):
@@ -342,6 +429,18 @@ def corpus():
         # the gate lags (it waits inside notify_clones): the connect() in flight is cancelled, the gate gets to the Subscribe later
         "k;c 0;c 1;d 0;d 1;c 0;d 0;c 0;d 0;c 0;d 0;c 0;d 0;c 0;d 0;c 0;d 0;c 0;c 3;a 3;D 1;c 3;u 0",
         "k;c 0;c 1;d 0;d 1;c 0;d 0;c 0;d 0;c 0;d 0;c 0;d 0;c 0;d 0;c 0;d 0;c 0;c 3;a 3;c 5;a 5;x 1;c 3;c 5;u 0",
+        # Drop for Link. The unit is busy elsewhere (H) while 16 requesters ask for a connection and give up: the command
+        # channel is full when direct link 1 is dropped; its component links again with the same target; the unit gets back to
+        # its gate (seeded C08-c2: try_send loses the Unsubscribe, the old slot stays, update 1 arrives twice)
+        "c 1;u 0;H;" + ";".join(["a 3"] * 16) + ";o 1;c 1;R;u 0",
+        "c 1;c 0;u 0;H;" + ";".join(["a 3", "a 2"] * 8) + ";o 1;o 0;c 0;c 1;a 5;R;u 0;u 0;q 0;q 0;M",
+        # 15 commands: the Unsubscribe takes the last place, the new Subscribe waits
+        "c 1;H;" + ";".join(["a 5"] * 15) + ";o 1;c 1;c 3;R;u 0;o 3;u 0",
+        # dropped with the unit at its gate; dropped and not linked again: nothing arrives any more
+        "c 1;c 0;u 0;o 1;o 0;u 0;c 1;u 0;q 0",
+        "Q 1;c 1;H;" + ";".join(["a 3"] * 17) + ";o 1;u 0;R;u 0;c 1;u 0",
+        # a suspended link is dropped; links connect and suspend while the unit is busy
+        "c 1;c 3;s 1;H;c 5;s 3;" + ";".join(["a 0"] * 14) + ";o 1;o 3;c 1;R;u 0;r 3;u 0",
     ]
 
 
